@@ -211,6 +211,14 @@ func (os *ObjectStream) GetObjectByIndex(index int) (Object, int, error) {
 	if endOffset > len(os.decoded) {
 		endOffset = len(os.decoded)
 	}
+	if offset < os.first || offset < 0 {
+		return nil, 0, fmt.Errorf("object offset %d lies before the first object (%d)", offset, os.first)
+	}
+	if endOffset < offset {
+		// Offsets in the header are not ascending: the next entry cannot
+		// delimit this object, parse up to the end of the data instead
+		endOffset = len(os.decoded)
+	}
 
 	// Parse the object from its data slice
 	objectData := os.decoded[offset:endOffset]
